@@ -94,7 +94,21 @@ def main():
     per = {}
     for d in diags:
         spans = [s for s in d.get("spans", []) if s.get("is_primary")] or d.get("spans", [])
-        line = spans[0]["line_start"] if spans else 0
+
+        def in_crate(sp):
+            # a span inside a std macro (`vec!`) points into another file: follow the expansion back to the crate
+            hops = 0
+            while sp is not None and not sp.get("file_name", "").endswith("src/main.rs") and hops < 20:
+                sp = (sp.get("expansion") or {}).get("span")
+                hops += 1
+            return sp
+
+        line = 0
+        for sp in spans + [x for x in d.get("spans", []) if x not in spans]:
+            sp = in_crate(sp)
+            if sp is not None:
+                line = sp["line_start"]
+                break
         # macro expansions point into the derive attribute of the receiver
         key, a, b = owner(line)
         if key is None:
@@ -140,8 +154,10 @@ def main():
             samples.append({"receiver": key, "declaration": " ".join(item.split())[:700]})
     classes["receivers:with-darling-options"] = nontrivial
     classes["receivers:hostile-field-names"] = hostile
+    classes["receivers:generated-generic"] = sum(1 for k, v in meta["extras"].items() if "GG" in v)
+    classes["receivers:generic-with-flatten"] = sum(1 for k, v in meta["extras"].items() if "GG" in v and "flatten" in v)
     frag = {"property": "C20", "step": "compile", "seed": seed, "evaluations": len(ranges), "distinct_nontrivial": nontrivial,
-            "rule": "accepted receiver declarations of the C01/C09/C16 option space (%d generated specs with field names from a hostile pool: darling's option words, plausible locals of generated code such as e / i / len / errors / item / value, raw identifiers) plus hand-written templates (generic receivers with lifetime, bounded and const params and where-clauses for all six traits, closures and generic paths for with / map / default / and_then, enums with variant names Ok / Err / Some / None, newtype and unit receivers, a receiver inside a nested module) emitted as ONE crate whose syn dependency is renamed (no crate called `syn` in scope) and which imports nothing; oracle: `cargo check` reports no error; each error is attributed to a receiver through its line range. evaluations = receivers compiled. Non-trivial: the declaration carries at least one #[darling(..)] option; distinct by construction (one declaration each)" % len(meta["specs"]),
+            "rule": "accepted receiver declarations of the C01/C09/C16 option space (%d generated specs with field names from a hostile pool: darling's option words, plausible locals of generated code such as e / i / len / errors / item / value, raw identifiers) plus randomly composed generic receivers (1-3 type parameters named T / U / Item / Vec / Option / Result / Error / FromMeta / Box / String ..., each used by fields in random roles: ordinary, Option, multiple, flatten, boxed, map value, SpannedValue / Override / Rc wrappers, a generic receiver of its own, skipped with or without a user-declared Default bound, inline or in a where-clause; lifetime and const parameters; structs for all six traits with random magic fields, and enums) plus hand-written templates (generic receivers with lifetime, bounded and const params and where-clauses for all six traits, closures and generic paths for with / map / default / and_then, enums with variant names Ok / Err / Some / None, newtype and unit receivers, a receiver inside a nested module) emitted as ONE crate whose syn dependency is renamed (no crate called `syn` in scope) and which imports nothing; oracle: `cargo check` reports no error; each error is attributed to a receiver through its line range. evaluations = receivers compiled. Non-trivial: the declaration carries at least one #[darling(..)] option; distinct by construction (one declaration each)" % len(meta["specs"]),
             "classes": classes, "samples": samples, "violations": violations, "known_hits": known_hits, "excluded_known": 0, "exhaustive": None,
             "notes": ["cargo check took %.1fs" % (time.time() - t0)]}
     os.makedirs(out, exist_ok=True)
